@@ -189,6 +189,9 @@ type CadenceCase struct {
 	IntervalMs int `json:"interval_ms"`
 	Polls      int `json:"polls"`
 	SlowPct    int `json:"slow_pct"` // every poll request takes this percentage of the interval (0 = instant)
+	// nothing is declared: the store starts empty (lookups allowed) and learns its only secret through
+	// a lookup a little later - which is then polled like any other
+	LookupOnly bool `json:"lookup_only,omitempty"`
 }
 
 func runCadence(t *testing.T, c CadenceCase) (v *h.Violation, info h.Info) {
@@ -204,10 +207,26 @@ func runCadence(t *testing.T, c CadenceCase) (v *h.Violation, info h.Info) {
 			}()
 		}
 		t0 := time.Now()
-		st, err := setec.NewStore(context.Background(), setec.StoreConfig{Client: svc, Secrets: []string{"a"}, PollInterval: interval, Logf: nolog})
+		cfg := setec.StoreConfig{Client: svc, Secrets: []string{"a"}, PollInterval: interval, Logf: nolog}
+		if c.LookupOnly {
+			cfg.Secrets, cfg.AllowLookup = nil, true
+		}
+		st, err := setec.NewStore(context.Background(), cfg)
 		if err != nil {
 			v = h.V("harness", "NewStore: %v", err)
 			return
+		}
+		if c.LookupOnly {
+			time.Sleep(interval / 7)
+			if _, err := st.LookupSecret(context.Background(), "a"); err != nil {
+				v = h.V("harness", "lookup: %v", err)
+				return
+			}
+			defer func() {
+				if v == nil {
+					info.Class("store-without-declared-secrets")
+				}
+			}()
 		}
 		if c.SlowPct > 0 {
 			svc.SetDefault("a", fake.Beh{Kind: "ok", DelayMs: c.IntervalMs * c.SlowPct / 100})
@@ -248,11 +267,11 @@ func runCadence(t *testing.T, c CadenceCase) (v *h.Violation, info h.Info) {
 
 var c11cadence = &h.Campaign[CadenceCase]{
 	Prop: "C11", Sub: "cadence",
-	Rule: "rapid + synctest: the store's own ticker under virtual time for generated intervals (20 ms - 3 h), 2-8 polls, poll requests that are instant or take 20-60 % of the interval; poll instants must be t0 + k*p with one p in [0.9*I, 1.1*I]; every case is non-trivial; distinct by (interval, polls)",
+	Rule: "rapid + synctest: the store's own ticker under virtual time for generated intervals (20 ms - 3 h), 2-8 polls, poll requests that are instant or take 20-60 % of the interval; one case in four starts a store without any declared secret, which learns its secret through a lookup a little later; poll instants must be t0 + k*p with one p in [0.9*I, 1.1*I]; every case is non-trivial; distinct by (interval, polls)",
 	Quick: 300, Thorough: 100000,
 	Gen: func(rt *rapid.T) CadenceCase {
 		return CadenceCase{IntervalMs: rapid.OneOf(rapid.IntRange(20, 5000), rapid.IntRange(5000, 10800000)).Draw(rt, "interval"), Polls: rapid.IntRange(2, 8).Draw(rt, "polls"),
-			SlowPct: rapid.SampledFrom([]int{0, 0, 20, 35, 60}).Draw(rt, "slowpct")}
+			SlowPct: rapid.SampledFrom([]int{0, 0, 20, 35, 60}).Draw(rt, "slowpct"), LookupOnly: rapid.IntRange(0, 3).Draw(rt, "lookuponly") == 0}
 	},
 	Run: runCadence,
 }
